@@ -104,7 +104,7 @@ def lazy_checks(ctx, scale):
     return len(lines), fails
 
 
-HIST_CODE = {'e': 0, 'c': 1, 'v': 2, 'a': 3, 'A': 3, 'k': 9, 'p': 3, 's': 4, 'S': 4, 'j': 10, 'm': 4, 'd': 5, 'n': 6, 'q': 7, 'x': 8, 'i': 11}
+HIST_CODE = {'e': 0, 'c': 1, 'v': 2, 'a': 3, 'A': 3, 'k': 9, 'p': 3, 's': 4, 'S': 4, 'j': 10, 'm': 4, 'd': 5, 'n': 6, 'q': 7, 'x': 8, 'i': 11, 'X': 0, 'Y': 0, 'Z': 0, 'W': 8}
 MODE_KIND = {'const': 0, 'witness': 2, 'input': 3}
 
 def parse_reads(s):
@@ -130,8 +130,10 @@ def history_checks(ctx, pool, scale):
     out-of-place group operations in between, reads at every point): implementation vs the Coq model (Model/Wrapper.v,
     extracted) and vs the same history on a native Element (the property predicate)."""
     rng = ctx.rng; fails = []; mism = []
-    letters = 'ecvaAksSjdnpmqxiiu'
-    hists = ['i', 'u', 'ci', 'ic', 'iu', 'aiu', 'cui', 'c', 'v', 'cac', 'cdc', 'cAcv', 'ckc', 'csc', 'cSc', 'cjc', 'cnc', 'cpc', 'cmc', 'cqc', 'cxc', 'ecac', 'vcdcv', 'cvacvdc', 'ccaac', 'cdedc', 'vnvcnc', 'cacscdc']
+    letters = 'ecvaAksSjdnpmqxiiuXWYZ'
+    hists = ['i', 'u', 'ci', 'ic', 'iu', 'aiu', 'cui', 'c', 'v', 'cac', 'cdc', 'cAcv', 'ckc', 'csc', 'cSc', 'cjc', 'cnc', 'cpc', 'cmc', 'cqc', 'cxc', 'ecac', 'vcdcv', 'cvacvdc', 'ccaac', 'cdedc', 'vnvcnc', 'cacscdc',
+             # clones are independent of the variable they were cloned from (seed C13n: clones sharing one memo cell)
+             'Xc', 'cXc', 'vXvc', 'XdXcv', 'Wac', 'cWAcv', 'WSc', 'Wpc', 'Wi', 'Yc', 'vYvc', 'cYYc', 'Zc', 'cZcv', 'XWYZcv']
     for _ in range(10 * scale):
         n = 2 + rng.below(7)
         h = ''.join(rng.choice(letters) for _ in range(n))
